@@ -63,6 +63,10 @@ class Fab:
         return s.struct('Lambda', top_level=top_level, is_vararg=is_vararg, envmap=s.envmap(envmap), args=list(args),
                         bc=list(bc), desc_args=mk_none())
     def vlambda(s, *a, **k): return s.vc('Lambda', s.rc(s.lambda_(*a, **k)))
+    def builtin(s, desc, fn_name):
+        """VCell::BuiltInProc whose fn pointer is the MIR function `fn_name`"""
+        if fn_name is None: raise Unsupported('builtin procedure %s not found in the sources' % desc)
+        return s.vc('BuiltInProc', s.rc(s.struct('BuiltInProc', desc=mkstr(desc), proc=Agg('fnitem', None, [fn_name]))))
     def stack(s, cells, sp):
         return s.struct('Stack', stack=list(cells), sp=sp)
     def continuation(s, cells, sp, ep, ip, bp):
@@ -176,6 +180,8 @@ def show_vcell(fab, v, model=None):
             ''.join(' ' + show_vcell(fab, x, model) for x in fab.field(lam, 'Lambda', 'args')),
             ''.join(' ' + show_vcell(fab, x, model) for x in fab.field(lam, 'Lambda', 'bc')),
             ''.join(' (%s %s)' % (show_vcell(fab, e.f[0], model), src(e.f[1])) for e in env))
+    if k == 'BuiltInProc':
+        return '(builtin %s)' % _hex(fab.field(v.f[0].get(), 'BuiltInProc', 'desc').chars, model)
     if k == 'Continuation':
         ct = v.f[0].get()
         ip = fab.field(ct, 'Continuation', 'ip')
